@@ -794,7 +794,13 @@ fn gen_transport(run: &mut Run, prop: &str, seed: u64, thorough: bool) {
         "Noise_KK_P256_ChaChaPoly_SHA256",
         "Noise_IK_25519_AESGCM_BLAKE2s",
         "Noise_XX_448_ChaChaPoly_SHA512",
+        // one-way patterns WITH modifiers: still one-way
+        "Noise_Xpsk1_25519_ChaChaPoly_SHA256",
     ];
+    let mut names: Vec<&str> = names.to_vec();
+    if prop == "C11" {
+        names.extend(["Noise_Npsk0_25519_AESGCM_SHA256", "Noise_Kpsk0_25519_ChaChaPoly_BLAKE2s", "Noise_Npsk0+psk1_25519_ChaChaPoly_SHA512"]);
+    }
     let reps = if thorough { 12 } else { 2 };
     for rep in 0..reps {
         for (i, n) in names.iter().enumerate() {
